@@ -152,3 +152,43 @@ func VerifC15_ConcurrentRecompile() {
 	zzCheckBytecode(bcB, errB, 0, "CompileRoute after executions")
 	zzverif.Reach("concurrent")
 }
+
+// Two routes through one JIT, both driven to the hot tiers: what one
+// compilation learned (constants, copies) must not leak into the next.
+// Route a:  $ v = 7  > v + 1        Route b (/p/:v):  > v - 3
+func VerifC15_TwoRoutesHot() {
+	j := NewJITCompilerWithConfig(2, 0)
+	seven := &ast.LiteralExpr{Value: ast.IntLiteral{Value: 7}}
+	ra := &ast.Route{Path: "/a", Method: ast.Get, Body: []ast.Statement{
+		&ast.AssignStatement{Target: "v", Value: seven},
+		&ast.ReturnStatement{Value: &ast.BinaryOpExpr{Op: ast.Add, Left: &ast.VariableExpr{Name: "v"}, Right: &ast.LiteralExpr{Value: ast.IntLiteral{Value: 1}}}}}}
+	rb := &ast.Route{Path: "/p/:v", Method: ast.Get, Body: []ast.Statement{
+		&ast.ReturnStatement{Value: &ast.BinaryOpExpr{Op: ast.Sub, Left: &ast.VariableExpr{Name: "v"}, Right: &ast.LiteralExpr{Value: ast.IntLiteral{Value: 3}}}}}}
+	in := zzverif.Int64("v")
+	check := func(bc []byte, err error, want int64, what string) {
+		if err != nil {
+			zzverif.Fail("jit-compile-error " + what)
+			return
+		}
+		m := vm.NewVM()
+		m.SetLocal("v", vm.IntValue{Val: in})
+		m.SetMaxSteps(1000)
+		res, rerr := m.Execute(bc)
+		iv, ok := res.(vm.IntValue)
+		zzverif.Assert(rerr == nil && ok && iv.Val == want, "stale-or-wrong-code-served "+what)
+	}
+	rounds := 2 + zzverif.Choice("rounds", 2)
+	for k := 0; k < rounds; k++ {
+		bc, err := j.CompileRoute("a", ra)
+		check(bc, err, 8, "route a, two-route history")
+		for e := 0; e < 3; e++ {
+			j.RecordExecution("a", time.Duration(5))
+		}
+		bc, err = j.CompileRoute("b", rb)
+		check(bc, err, in-3, "route b after route a, two-route history")
+		for e := 0; e < 3; e++ {
+			j.RecordExecution("b", time.Duration(5))
+		}
+	}
+	zzverif.Reach("tworoutes")
+}
